@@ -379,8 +379,14 @@ func (s *Service) doRouteResp(ctx context.Context, src, target, last boson.Addre
 		return 0
 	}
 	if resp != nil {
-		resp.Paths = s.routeTable.generatePaths(resp.Paths)
-		resp.UList = s.convUnderlayList(resp.UType, target, last, resp.UList)
+		// build a new message: respForward passes the same received response
+		// for every pending requester, so it must not be extended in place.
+		resp = &pb.RouteResp{
+			Dest:  resp.Dest,
+			Paths: s.routeTable.generatePaths(resp.Paths),
+			UType: resp.UType,
+			UList: s.convUnderlayList(resp.UType, target, last, resp.UList),
+		}
 	} else if len(paths) > 0 {
 		resp = &pb.RouteResp{
 			Dest:  target.Bytes(),
